@@ -133,7 +133,7 @@ def h_new_node_trees(I, fi):
 
     def outer(I_, node, fr):
         seq = I_.eval(node.iter, fr)
-        ok = isinstance(seq, SymSeq) and not seq.tail and P.z(seq.length) == P.z(base.R + 1) and P.z(I_.to_num(seq.core_at(I_, Num.const(0)))) == 0
+        ok = dsl.conj(isinstance(seq, SymSeq) and not seq.tail, P.z(seq.length) == P.z(base.R + 1), P.z(I_.to_num(seq.core_at(I_, Num.const(0)))) == 0)
         P.check("new.sizes-0-to-R", ok, "subset sizes range over 0 .. R (R = number of top-level clones of the parent)", kind="post")
         if not isinstance(seq, SymSeq):
             raise PathEnd()
@@ -195,7 +195,7 @@ def h_set_log_p_dist(I, fi, fi_q=None):
     P.check("inv1.log_p-entry", isinstance(k_i, Holder) and k_i.fam == "c" and (I.to_num(k_i.i) - i).is_zero() and (alg.is_identically_zero(I.to_num(v_i) - want) or P.z(I.to_num(v_i)) == P.z(want)),
             "_log_p[c_i] = log_p(c_i) - log sum_j exp log_p(c_j)", kind="post")
     q = self.fields.get("_q_dist")
-    P.check("inv1.q-dist", isinstance(q, SymSeq) and P.z(q.length) == P.z(M) and P.z(I.to_num(q.core_at(I, i))) == P.z(alg.sexp(want)), "_q_dist[i] = exp(_log_p[c_i])", kind="post")
+    P.check("inv1.q-dist", dsl.conj(isinstance(q, SymSeq), P.z(q.length) == P.z(M), P.z(I.to_num(q.core_at(I, i))) == P.z(alg.sexp(want))), "_q_dist[i] = exp(_log_p[c_i])", kind="post")
     from pyvc.builtins_model import seq_sum
 
     P.check("inv1.normalised", isinstance(q, SymSeq) and P.z(I.to_num(seq_sum(I, q))) == 1, "sum_i _q_dist[i] = 1", kind="post")
